@@ -284,6 +284,20 @@ func (fc *FnCtx) bindLocalFunc(obj types.Object, rhs ast.Expr) {
 }
 
 func (fc *FnCtx) assignStmt(st *State, s *ast.AssignStmt) {
+	fc.assignStmtInner(st, s)
+	if len(fc.contract.Anchored) == 0 || st.dead() {
+		return
+	}
+	// `at assign <local> #k` anchors
+	for _, l := range s.Lhs {
+		if id, ok := l.(*ast.Ident); ok && id.Name != "_" {
+			fc.assignOrd[id.Name]++
+			fc.runAnchors(st, "assign", id.Name, fc.assignOrd[id.Name], s.End(), nil)
+		}
+	}
+}
+
+func (fc *FnCtx) assignStmtInner(st *State, s *ast.AssignStmt) {
 	if s.Tok != token.ASSIGN && s.Tok != token.DEFINE {
 		// op=
 		l := fc.expr(st, s.Lhs[0])
@@ -1021,7 +1035,7 @@ func (fc *FnCtx) runAnchors(st *State, kind, name string, ord int, pos token.Pos
 		if c.AnchorKind != kind {
 			continue
 		}
-		if kind == "call" || kind == "aftercall" {
+		if kind == "call" || kind == "aftercall" || kind == "assign" {
 			if c.AnchorName != name || (c.AnchorOrd != 0 && c.AnchorOrd != ord) {
 				continue
 			}
